@@ -23,6 +23,7 @@ func init() {
 			"(D5, cont.) while positioning the file reader for a cursor one record is read and discarded only when the seek landed on the cursor's own record (a cursor newer than all file records, i.e. an entry still in memory, skips nothing); (D6) the address mutator is applied only to copies: no value passed to an aghnet.IPMutFunc in the query log aliases the IP field of an entry, so recorded entries keep the client they were recorded with. " +
 			"(D7) the per-search client cache is keyed by exactly the (ClientID, address) pair the client lookup depends on. " +
 			"(D8) the quick match looks at the undecoded line of a file record only through whole field values (readJSONValue), never through substring tests on the raw line. " +
+			"(D4, cont.) the file a flush writes to is opened by name during that very flush (no handle kept across flushes, which clear or rotate would leave pointing at an unlinked file). " +
 			"Not decided: exactly-once / newest-first over memory+file+rotated file, cursor and offset partitioning, search-term semantics (history- and value-level).",
 		RuleText: "Key sets are computed from go/types struct tags following encoding/json naming, and from the typed AST of the decoder (map literal keys, switch cases, == comparisons).",
 		Assumptions: []string{
@@ -42,6 +43,40 @@ func runC07(c *Ctx) {
 	c07ShutdownFlush(c)
 	c07Cursor(c)
 	c07RecordedImmutable(c)
+	c07FlushOpensByName(c)
+}
+
+// c07FlushOpensByName: D4 (cont.) — whatever a flush writes goes to the file that carries the log's name at that
+// moment: the handle written to was opened, by name, during that very flush.  A handle kept from an earlier flush
+// keeps pointing at a file that clear or rotate has since unlinked or renamed: the records are written without
+// an error and can never be read back.
+func c07FlushOpensByName(c *Ctx) {
+	p, r := c.P, c.R
+	fn := p.Fn("(*querylog.queryLog).flushToFile")
+	if fn == nil {
+		r.Undecided("C07-D4", "flushToFile", "-", "anchor (*queryLog).flushToFile not found")
+		return
+	}
+	n := 0
+	var bad []string
+	for _, call := range core.CallsToDeep(fn, "(*os.File).Write", "(*os.File).WriteString", "(*os.File).WriteAt", "(*os.File).ReadFrom", "(*bufio.Writer).Write", "io.Copy", "iface:(io.Writer).Write") {
+		if len(call.Common.Args) == 0 {
+			continue
+		}
+		n++
+		for _, o := range core.Origins(call.Arg(0), core.ProvOpts{Prog: p, IntoModuleCalls: true, InterprocDepth: 2}) {
+			switch {
+			case o.Kind == "call" && (o.Key == "os.OpenFile" || o.Key == "os.Create" || o.Key == "os.Open"):
+			case o.Kind == "const", o.Kind == "alloc":
+			default:
+				bad = append(bad, o.String())
+			}
+		}
+	}
+	sort.Strings(bad)
+	r.Check(n > 0 && len(bad) == 0, "C07-D4", "flush-writes-to-a-file-opened-by-name-now", p.FnPos(fn),
+		"the file a flush writes to is opened by name during that flush",
+		fmt.Sprintf("a flush can write through a file handle that was not opened during this flush (%v): after the files were cleared or rotated the handle points at an unlinked or renamed file and the flushed records are never found again", bad))
 }
 
 // c07ShutdownFlush: D4 — entries still in memory are flushed to the file on
@@ -97,12 +132,26 @@ func c07Cursor(c *Ctx) {
 	seen := map[*ssa.Phi]bool{}
 	var visit func(v ssa.Value)
 	visit = func(v ssa.Value) {
+		// the cursor may be handed back as a time: time.Unix(0, nanoseconds), or the zero time for "none"
+		if tc, _, isCall := core.CallResult(v); isCall && core.CalleeKey(tc.Common()) == "time.Unix" && len(tc.Common().Args) == 2 {
+			visit(tc.Common().Args[1])
+			return
+		}
 		phi, ok := v.(*ssa.Phi)
 		if !ok || seen[phi] {
 			return
 		}
 		seen[phi] = true
+		isTime := core.TypeKey(phi.Type()) == "time.Time"
 		for i, e := range phi.Edges {
+			if isTime {
+				// a join of "no cursor" and the converted one: follow the converted value
+				if cst, isC := e.(*ssa.Const); isC && cst.Value == nil {
+					continue
+				}
+				visit(e)
+				continue
+			}
 			pred := phi.Block().Preds[i]
 			if !callBlock.Dominates(pred) {
 				// value from before a record was read in this iteration
